@@ -426,7 +426,7 @@ fn uniq_cases(em: &mut Emitter) {
     }
     // (3) long sorted series: runs of every length, null blocks, extremes; f64 with +-inf and -0.0 next to 0.0
     let mut rng = Rng::new(em.args.seed ^ 0x5EED14);
-    let n = if thorough { 1500 } else { 300 };
+    let n = if thorough { 2000 } else { 600 };
     for _ in 0..n {
         let nruns = rng.below(9);
         let asc = rng.chance(1, 2);
@@ -466,7 +466,7 @@ fn main() {
         cut_cases_i32(&mut em, "dense", &[-2, -1, 0, 1, 2, 3], 6);
         cut_cases_f64(&mut em, "tiny", &[-5e-324, 0.0, 5e-324, 1.0, 1.0 + f64::EPSILON, 2.0], 6);
     }
-    cut_cases_random(&mut em, if thorough { 4000 } else { 600 });
+    cut_cases_random(&mut em, if thorough { 5000 } else { 1500 });
     uniq_cases(&mut em);
     em.finish();
 }
